@@ -200,4 +200,6 @@ def run(ctx):
                         return True
                 return False
             g = CallGuard(r'^std::cmp::PartialEq::eq$', 'false', argpred=ap, name='name == header::%s is false' % hname)
-            oblig.effect_requires(ctx, 'C27-D5', fn, 'builder.header(name, value)', is_header, [g])
+            # the same fact established through a private predicate (e.g. `if is_dropped(name) { continue }`): outcome whose every clause has !eq(name, HEADER)
+            hg = oblig.helper_guards(prog, T, fn, lambda l, _h=hname: re.fullmatch(r'!PartialEq::eq\([^,]+,%s\)' % _h, l) is not None, 'name == header::%s is false' % hname)
+            oblig.effect_requires(ctx, 'C27-D5', fn, 'builder.header(name, value)', is_header, [g] + hg)
